@@ -54,11 +54,11 @@ CONFIGS = {
     'thorough': [
         ('N3-full', dict(N=3, Kinds={"ea", "eb", "t", "c", "p", "xa", "xc"}, RootCfg="R1", Axes=set(AXES),
                          Tests={"node()", "*", "a", "b", "c", "text()", "comment()", "processing-instruction()"},
-                         Preds={"1", "2", "last()", "position()<2", "b", "@a", "not(b)", "text()"},
+                         Preds={"1", "last()", "position()<2", "@a", "not(b)"},
                          ParenPreds={"1", "2", "last()", "b"}, Preds2=set(), DocSibs=False)),
-        ('N4-R1', dict(N=4, Kinds={"ea", "eb", "t", "c", "xa"}, RootCfg="R1", Axes=set(AXES),
-                       Tests={"node()", "*", "a", "b", "text()", "comment()"},
-                       Preds={"1", "2", "last()", "b"}, ParenPreds={"1", "2", "last()"}, Preds2=set(), DocSibs=False)),
+        ('N4-R1', dict(N=4, Kinds={"ea", "eb", "t", "xa"}, RootCfg="R1", Axes=set(AXES),
+                       Tests={"node()", "*", "a", "text()"},
+                       Preds={"2", "last()"}, ParenPreds={"last()"}, Preds2=set(), DocSibs=False)),
         ('N4-R2', dict(N=4, Kinds={"ea", "eb", "t", "xa"}, RootCfg="R2", Axes=set(AXES),
                        Tests={"node()", "*", "a", "text()"}, Preds={"1", "2", "last()"}, ParenPreds={"last()"}, Preds2=set(), DocSibs=False)),
         ('N4-R3', dict(N=4, Kinds={"ea", "eb", "t", "xa"}, RootCfg="R3", Axes=set(AXES),
@@ -70,11 +70,11 @@ CONFIGS = {
         ('N3-NS-full', dict(N=3, Kinds={"ea", "en", "em", "xn", "xa", "t"}, RootCfg="R1", Axes=set(AXES),
                             Tests={"node()", "*", "a", "p:a", "p:*", "q:a", "q:*", "*:a"}, Preds={"1", "last()"},
                             ParenPreds=set(), Preds2=set(), DocSibs=False)),
-        ('N4-DS', dict(N=4, Kinds={"ea", "eb", "c", "p", "t"}, RootCfg="R1", Axes=set(AXES),
-                       Tests={"node()", "*", "a", "comment()", "processing-instruction()"}, Preds={"1", "last()"},
-                       ParenPreds={"1"}, Preds2=set(), DocSibs=True)),
+        ('N4-DS', dict(N=4, Kinds={"ea", "eb", "c", "t"}, RootCfg="R1", Axes=set(AXES),
+                       Tests={"node()", "*", "comment()"}, Preds={"1"},
+                       ParenPreds=set(), Preds2=set(), DocSibs=True)),
         ('N5', dict(N=5, Kinds={"ea", "eb", "t"}, RootCfg="R1", Axes=set(AXES),
-                    Tests={"node()", "*", "a", "text()"}, Preds={"2", "last()"}, ParenPreds={"2"}, Preds2=set(), DocSibs=False)),
+                    Tests={"node()", "*", "a"}, Preds={"last()"}, ParenPreds=set(), Preds2=set(), DocSibs=False)),
     ],
 }
 
